@@ -114,10 +114,8 @@ def _worker_task(task):
             w.snapshot(new_snap)
         enabled = driver.enabled(w, res['post']) if k != key else None
         extra = None
-        if hasattr(driver, 'deviations'):
-            extra = driver.deviations(w, snap, ev, res)
-            res['violations'] += extra.pop('violations', [])
-            res['stats'].update(extra.pop('stats', {}))
+        if hasattr(driver, 'plan_deviations'):
+            extra = driver.plan_deviations(w, snap, ev, res)
         obs = res['obs']
         return {'key': k, 'enabled': enabled,
                 'violations': res['violations'], 'stats': dict(res['stats']),
@@ -125,6 +123,22 @@ def _worker_task(task):
                 'extra': extra, 'dt': res['dt']}
     except BaseException:
         return {'error': traceback.format_exc(), 'task': [key, ev]}
+
+
+def _worker_dev_task(task):
+    """task = (driver_spec, root, snapdir, key, event, deviation, ctx)."""
+    spec, root, snapdir, key, ev, dev, ctx = task
+    try:
+        from . import drivers
+        driver = drivers.make(spec)
+        w = get_world(root, driver.config)
+        snap = os.path.join(snapdir, key)
+        out = driver.run_deviation(w, snap, ev, dev, ctx)
+        out.setdefault('violations', [])
+        out.setdefault('stats', {})
+        return out
+    except BaseException:
+        return {'error': traceback.format_exc(), 'task': [key, ev, dev]}
 
 
 def _init_worker():
@@ -148,6 +162,7 @@ class Result:
         self.samples = []
         self.errors = []
         self.job_transitions = 0
+        self.deviation_runs = 0
         self.wall = 0.0
         self.init_key = None
 
@@ -196,6 +211,7 @@ def explore(driver_spec, workers=None, max_depth=None, time_cap=None,
             tasks = [(driver_spec, root, snapdir, k, ev)
                      for k in frontier for ev in enabled[k]]
             new_frontier = []
+            dev_tasks = []
             n = 0
             for task, r in zip(tasks, pool.imap(_worker_task, tasks, 1)):
                 n += 1
@@ -213,6 +229,11 @@ def explore(driver_spec, workers=None, max_depth=None, time_cap=None,
                         v = dict(v)
                         v['history'] = res.history_of(task[3]) + [task[4]]
                         res.violations.append(v)
+                if r.get('extra'):
+                    res.stats.update(r['extra'].get('stats', {}))
+                    for dev in r['extra'].get('devs', []):
+                        dev_tasks.append((driver_spec, root, snapdir, task[3],
+                                          task[4], dev, r['extra']['ctx']))
                 if k not in res.parents:
                     res.parents[k] = (task[3], task[4])
                     enabled[k] = r['enabled']
@@ -220,6 +241,23 @@ def explore(driver_spec, workers=None, max_depth=None, time_cap=None,
                 if time_cap and time.time() - t0 > time_cap:
                     capped = True
                     break
+            if dev_tasks and not capped:
+                for task, r in zip(dev_tasks, pool.imap(_worker_dev_task,
+                                                        dev_tasks, 1)):
+                    if 'error' in r:
+                        res.errors.append(r)
+                        continue
+                    res.stats.update(r['stats'])
+                    res.deviation_runs += 1
+                    for v in r['violations']:
+                        if len(res.violations) < max_violations:
+                            v = dict(v)
+                            v['history'] = res.history_of(task[3]) + [task[4]]
+                            v['deviation'] = task[5]
+                            res.violations.append(v)
+                    if time_cap and time.time() - t0 > time_cap:
+                        capped = True
+                        break
             for k in frontier:
                 shutil.rmtree(os.path.join(snapdir, k), ignore_errors=True)
                 enabled.pop(k, None)
@@ -269,14 +307,16 @@ def replay(driver_spec, history, root=None, deviation=None):
             shutil.rmtree(snap, ignore_errors=True)
             w.snapshot(snap)
             res = step(w, driver, ev)
-            extra = driver.deviations(w, snap, ev, res, only=deviation)
-            res['violations'] += extra.get('violations', [])
+            plan = driver.plan_deviations(w, snap, ev, res)
+            if deviation in plan.get('devs', []):
+                extra = driver.run_deviation(w, snap, ev, deviation,
+                                             plan['ctx'])
+                for v in extra.get('violations', []):
+                    v['deviation'] = deviation
+                res['violations'] += extra.get('violations', [])
             shutil.rmtree(snap, ignore_errors=True)
         else:
             res = step(w, driver, ev)
-            if last and hasattr(driver, 'deviations') and deviation is None \
-                    and getattr(driver, 'replay_all_deviations', False):
-                pass
         keys.append(res['key'])
         statuses.append(res['obs'].get('status'))
         violations += res['violations']
